@@ -369,9 +369,6 @@ def ob_rm3_removed_check(ctx, tier):
                 if not lu:
                     failing.append("removed_source_stays_in_the_lifecycle_set_when_unregister_fails")
                     cex = cex or fmt_path(p)
-        if len(unregs) > 1:
-            failing.append("unregistered_more_than_once")
-            cex = cex or fmt_path(p)
     return result(not failing, witness, failing, cex, "", paths, cfg)
 
 
@@ -958,6 +955,18 @@ def ob_run(ctx, tier):
             c.fail("run_writes_stop_inside_the_loop", p)
         ds = calls(p, r"EventLoop::<.*>::dispatch::<")
         loads = atomics(p, "load", stop_i)
+        # an iteration is a whole dispatch (events, then -- if they succeeded -- the idle callbacks, unconditionally: C13):
+        # either through dispatch(), or dispatch_events() directly followed by dispatch_idles()
+        for de_ in calls(p, r"::dispatch_events$"):
+            ok_ = entails(ctx, p.pc, dz(de_.ret.disc) == 0)[0] if isinstance(de_.ret, Enum) else False
+            nxt_ = [e for e in p.trace[de_.idx + 1:] if e.kind in ("call", "callback") or (e.kind == "call" and "Atomic" in e.callee)]
+            nxt_ = [e for e in p.trace[de_.idx + 1:] if e.kind in ("call", "callback")]
+            if ok_ and p.status != "panic" and (not nxt_ or not re.search(r"::dispatch_idles$", nxt_[0].callee)):
+                c.fail("events_dispatched_without_running_the_idles_next", p)
+        if not ds and not calls(p, r"::dispatch_events$") and p.status == "return" and isinstance(p.ret, Enum) and p.ret.disc == 1:
+            c.fail("run_error_without_dispatch", p)
+        ds = ds + calls(p, r"::dispatch_events$")
+        ds.sort(key=lambda e: e.idx)
         for d in ds:
             prev = [l for l in loads if l.idx < d.idx]
             if not prev or (ds.index(d) > 0 and prev[-1].idx < ds[ds.index(d) - 1].idx):
